@@ -3,7 +3,7 @@
    requests (any notes with any sequence numbers, publishes, deletions,
    permission changes, unloads, restarts, failing/crashing store calls). *)
 From Coq Require Import ZArith NArith List Bool.
-From Tinode Require Import Base.Util Pure.Acs Sys.Topic Sys.TopicTac Sys.TopicFrame Sys.TopicNum Sys.TopicNumThm Sys.TopicMarks Sys.TopicMono.
+From Tinode Require Import Base.Util Pure.Acs Sys.Topic Sys.TopicTac Sys.TopicFrame Sys.TopicNum Sys.TopicNumThm Sys.TopicMarks Sys.TopicMono Sys.TopicCoh Sys.TopicCoh2.
 Import ListNotations.
 Open Scope Z_scope.
 
@@ -116,11 +116,59 @@ Theorem c09_note_unloaded : forall f s n0 sid what seq,
   (snd (step dr nr sm f (mkState s None n0) (ONote sid what seq)) = [] \/
    snd (step dr nr sm f (mkState s None n0) (ONote sid what seq)) = [(sid, Ctrl 409 [])]).
 Proof. exact (step_note_unloaded dr nr sm). Qed.
+
+(* The STORED marks never decrease either.  [sk s u] is the subscription row of u as
+   SubscriptionGet returns it, reduced to (deleted, read, recv); [smono s s'] says: for every user
+   whose row is live in s and in s', neither stored mark is lower in s'.  This holds at every step
+   (request, with any failing or crashing store call) of every history from a store with one row
+   per user, provided the sessions that publish or send notes are logged in (uid 0 is "nobody":
+   in the store contract SubsUpdate with uid 0 means every subscription). *)
+Theorem c09_store_monotone : forall s h fo,
+  fresh s -> smarks_ok 0 s -> und s ->
+  Forall (fun fo => op_user_ok sm (snd fo)) h -> op_user_ok sm (snd fo) ->
+  let x := fst (run dr nr sm (mkState s None 0) h) in
+  smono (st x) (st (fst (step_f dr nr sm x fo))).
+Proof.
+  intros s h fo F M0 U OKh OKfo x.
+  assert (inv_marks (mkState s None 0)) as I0.
+  { split; [apply fresh_inv; exact F|]. split; [|exact I]. destruct F as [_ E]. cbn [st]. rewrite E. exact M0. }
+  assert (inv_coh (mkState s None 0)) as C0 by (split; [exact U|exact I]).
+  pose proof (run_inv_marks dr nr sm h _ I0) as IM. pose proof (run_coh dr nr sm h _ OKh I0 C0) as IC.
+  exact (proj2 (step_f_coh dr nr sm x fo OKfo IM IC)).
+Qed.
+
+(* The invariant behind it: in every reachable state with the topic loaded the store is not ahead
+   of the topic - every live subscription row has a cache entry whose marks are at least the stored
+   ones (they differ only through the recorded finding and through ignored store errors). *)
+Theorem c09_store_not_ahead : forall s h,
+  fresh s -> smarks_ok 0 s -> und s ->
+  Forall (fun fo => op_user_ok sm (snd fo)) h ->
+  let x := fst (run dr nr sm (mkState s None 0) h) in
+  und (st x) /\ match ca x with Some c => coh (st x) c | None => True end.
+Proof.
+  intros s h F M0 U OKh x.
+  assert (inv_marks (mkState s None 0)) as I0.
+  { split; [apply fresh_inv; exact F|]. split; [|exact I]. destruct F as [_ E]. cbn [st]. rewrite E. exact M0. }
+  assert (inv_coh (mkState s None 0)) as C0 by (split; [exact U|exact I]).
+  exact (run_coh dr nr sm h _ OKh I0 C0).
+Qed.
 End C09.
 
-(* PARTIAL (hypothesis = the sender's stored marks are not ahead of the cached ones, which is the
-   cache/store agreement of C08 and is not proved here): the note handler never lowers a stored
-   mark; rows of other users are untouched. *)
+(* the hypotheses of c09_store_monotone are satisfiable *)
+Example c09_store_monotone_hyps :
+  let s0 := ad_sub_create (ad_sub_create (mkStore true 0 0 0 47 0 [] [] [] [(1%N, 47%N); (2%N, 47%N)]) 1%N 255%N 255%N) 2%N 47%N 47%N in
+  fresh s0 /\ smarks_ok 0 s0 /\ und s0 /\
+  Forall (fun fo => op_user_ok [(1%N, 1%N); (2%N, 2%N)] (snd fo))
+         [(NoFault, OSub 1 [] false); (NoFault, OPub 1 7 false); (NoFault, ONote 2 K_read 1)].
+Proof.
+  cbn zeta. split; [split; reflexivity|]. split; [repeat constructor; cbn; discriminate|].
+  split; [unfold und; vm_compute; repeat constructor; cbn; intuition discriminate|].
+  repeat constructor; cbn; discriminate.
+Qed.
+
+(* handler-level form of the same fact, for every row of the list (hypothesis = the sender's stored
+   marks are not ahead of the cached ones, which c09_store_not_ahead establishes for reachable
+   states): the note handler never lowers a stored mark; rows of other users are untouched. *)
 Theorem c09_note_store_forward_partial : forall f s c n sid u what seq,
   u <> 0%N ->
   (forall r, In r (subs s) -> s_user r = u -> s_read r <= p_read (get_pud c u) /\ s_recv r <= p_recv (get_pud c u)) ->
@@ -196,3 +244,5 @@ Print Assumptions c09_invalid_silent.
 Print Assumptions c09_note_unloaded.
 Print Assumptions c09_note_store_forward_partial.
 Print Assumptions c09_cached_monotone_across_reload_refuted.
+Print Assumptions c09_store_monotone.
+Print Assumptions c09_store_not_ahead.
